@@ -1292,21 +1292,113 @@ Proof.
 Qed.
 
 Lemma kids_sound ch ci :
-  (forall i, child_slot ch i = Some (Some ci)) ->
+  (forall i oc, child_slot ch i = Some oc -> oc = Some ci) ->
   (forall w v, wwf w = true -> recvw (Some ci) w = RDeliver v -> checkObject ci v = true) ->
   forall kids i l, forallb wwf kids = true -> kids_with recvw ch kids i = KOk l -> forallb (checkObject ci) l = true.
 Proof.
   intros Hs IH. induction kids as [|k kids IHk]; intros i l W E.
   - cbn in E. inversion E. reflexivity.
-  - cbn [kids_with] in E. rewrite Hs in E. cbn [forallb] in W. apply andb_true_iff in W as [W1 W2].
+  - cbn [kids_with] in E. destruct (child_slot ch i) as [oc|] eqn:CS; [|discriminate]. rewrite (Hs i oc CS) in E.
+    cbn [forallb] in W. apply andb_true_iff in W as [W1 W2].
     destruct (recvw (Some ci) k) as [x| |] eqn:R; try discriminate.
     destruct (kids_with recvw ch kids (S i)) as [l'| |] eqn:K; try discriminate.
     inversion E; subst. cbn [forallb]. rewrite (IH k x W1 R). cbn [andb]. eapply IHk; eassumption.
 Qed.
 
+(* a container child that refuses its B-th member ("the list / set / dict is full") delivers at most B members *)
+Lemma kids_bound ch (B : Z) :
+  (forall i, B <= Z.of_nat i -> child_slot ch i = None) ->
+  forall kids i l, kids_with recvw ch kids i = KOk l -> l = [] \/ Z.of_nat i + zlen l <= B.
+Proof.
+  intros Hs. induction kids as [|k kids IHk]; intros i l E.
+  - cbn in E. inversion E. left. reflexivity.
+  - cbn [kids_with] in E. destruct (child_slot ch i) as [oc|] eqn:CS; [|discriminate].
+    assert (LT : Z.of_nat i < B). { destruct (Z.lt_ge_cases (Z.of_nat i) B) as [L|G]; [exact L|]. rewrite (Hs i G) in CS. discriminate. }
+    destruct (recvw oc k) as [x| |]; try discriminate.
+    destruct (kids_with recvw ch kids (S i)) as [l'| |] eqn:K; try discriminate.
+    inversion E; subst. right. rewrite zlen_cons. destruct (IHk (S i) l' K) as [->|Bd].
+    + change (zlen (@nil obj)) with 0. lia.
+    + rewrite Nat2Z.inj_succ in Bd. lia.
+Qed.
+
+Lemma over_full mx i : match mx with Some m => m <= Z.of_nat i | None => False end -> over_max SGe mx (Z.of_nat i) = true.
+Proof. destruct mx as [m|]; [|contradiction]. cbn. intros H. destruct (Z.geb_spec (Z.of_nat i) m); [reflexivity|lia]. Qed.
+
+Lemma max_ok_of_bound mx (l : list obj) :
+  (forall m, mx = Some m -> l = [] \/ zlen l <= m) -> (forall m, mx = Some m -> 0 <= m) -> over_max SGt mx (zlen l) = false.
+Proof.
+  intros H P. destruct mx as [m|]; [|reflexivity]. cbn. destruct (Z.gtb_spec (zlen l) m); [|reflexivity].
+  destruct (H m eq_refl) as [->|B]; [|lia]. change (zlen (@nil obj)) with 0 in *. specialize (P m eq_refl). lia.
+Qed.
+
+Lemma recv_myref_remote kids v : recv_myref kids = RDeliver v -> exists n, v = ORemote n.
+Proof.
+  unfold recv_myref. intros E.
+  repeat match type of E with
+         | context [match ?x with _ => _ end] => destruct x; try discriminate E
+         | context [if ?x then _ else _] => destruct x; try discriminate E
+         end; inversion E; eauto.
+Qed.
+
+Fixpoint alt_ok (k v : ctr) (ev : bool) (l : list obj) : bool :=
+  match l with [] => true | x :: l' => checkObject (if ev then k else v) x && alt_ok k v (negb ev) l' end.
+
+Lemma kids_alt k v mk :
+  (forall w r, wwf w = true -> recvw (Some k) w = RDeliver r -> checkObject k r = true) ->
+  (forall w r, wwf w = true -> recvw (Some v) w = RDeliver r -> checkObject v r = true) ->
+  forall kids i l, forallb wwf kids = true -> kids_with recvw (ChDict (Some (k, v)) mk) kids i = KOk l ->
+  alt_ok k v (Nat.even i) l = true.
+Proof.
+  intros Hk Hv. induction kids as [|w kids IH]; intros i l W E.
+  - cbn in E. inversion E. reflexivity.
+  - cbn [kids_with child_slot] in E. destruct (over_max dict_full_cmp mk (Z.of_nat (Nat.div2 i))); [discriminate|].
+    cbn [forallb] in W. apply andb_true_iff in W as [W1 W2].
+    destruct (recvw (Some (if Nat.even i then k else v)) w) as [x| |] eqn:R; try discriminate.
+    destruct (kids_with recvw (ChDict (Some (k, v)) mk) kids (S i)) as [l'| |] eqn:K; try discriminate.
+    inversion E; subst. cbn [alt_ok]. specialize (IH (S i) l' W2 K). rewrite Nat.even_succ, <- Nat.negb_even in IH. rewrite IH.
+    rewrite andb_true_r. destruct (Nat.even i); [eapply Hk|eapply Hv]; eassumption.
+Qed.
+
+Lemma alt_evens_odds k v : forall l, alt_ok k v true l = true ->
+  forallb (checkObject k) (evens l) = true /\ forallb (checkObject v) (odds l) = true.
+Proof.
+  assert (G : forall n l, (List.length l <= n)%nat -> alt_ok k v true l = true ->
+              forallb (checkObject k) (evens l) = true /\ forallb (checkObject v) (odds l) = true).
+  { induction n as [|n IH]; intros l L A.
+    - destruct l; [cbn; auto|cbn in L; lia].
+    - destruct l as [|x [|y l]]; cbn [evens odds forallb]; auto.
+      cbn [alt_ok negb] in A. apply andb_true_iff in A as [A1 A2]. apply andb_true_iff in A2 as [A2 A3].
+      destruct (IH l) as [I1 I2]; [cbn [List.length] in L; lia|exact A3|]. rewrite A1, A2, I1, I2. auto. }
+  intros l. apply (G (List.length l)). lia.
+Qed.
+
+Lemma evens_len {A} : forall l : list A, 2 * zlen (evens l) <= zlen l.
+Proof.
+  assert (G : forall n (l : list A), (List.length l <= n)%nat -> 2 * zlen (evens l) <= zlen l).
+  { induction n as [|n IH]; intros l L.
+    - destruct l; [cbn; lia|cbn in L; lia].
+    - destruct l as [|x [|y l]]; cbn [evens]; try (unfold zlen; cbn [List.length]; lia).
+      rewrite !zlen_cons. specialize (IH l). cbn [List.length] in L. lia. }
+  intros l. apply (G (List.length l)). lia.
+Qed.
+
+Lemma bound_nonneg_spec mx m : bound_nonneg mx = true -> mx = Some m -> 0 <= m.
+Proof. intros H ->. cbn in H. apply Z.leb_le. exact H. Qed.
+
 Ltac kill_int_tokens H W :=
   let T := fresh in
   pose proof (wwf_int _ _ _ W) as T; destruct T as [T|[T|[T|T]]]; subst; cbn in H; discriminate.
+
+(* the size test of checkObject holds for what a bounded container child delivered *)
+Lemma delivered_within ch mx (l : list obj) kids :
+  bound_nonneg mx = true ->
+  (forall m i, mx = Some m -> m <= Z.of_nat i -> child_slot ch i = None) ->
+  kids_with recvw ch kids 0 = KOk l -> over_max SGt mx (zlen l) = false.
+Proof.
+  intros NN Hs K. destruct mx as [m|]; [|reflexivity]. cbn. destruct (Z.gtb_spec (zlen l) m) as [G|G]; [|reflexivity].
+  pose proof (bound_nonneg_spec _ _ NN eq_refl) as P.
+  destruct (kids_bound ch m (fun i Hi => Hs m i eq_refl Hi) kids 0%nat l K) as [->|B]; [change (zlen (@nil obj)) with 0 in G|]; lia.
+Qed.
 
 (* C02, result side, for the constraints whose token-level enforcement is complete: the value handed to the callback
    does satisfy the result constraint (w: ANY well-formed wire tree, including forged references) *)
@@ -1336,38 +1428,81 @@ Proof.
     + destruct vocab; cbn in R; discriminate.
     + destruct ot; cbn in R; try discriminate. destruct kids; [inversion R; reflexivity|discriminate].
     + cbn in R. destruct o; try discriminate. inversion R. reflexivity.
-  - (* List c None mn<=0 *)
-    destruct mx; [discriminate C|]. cbn [complete] in C. apply andb_true_iff in C as [C1 C2]. apply Z.leb_le in C1.
+  - (* List c mx mn<=0, any maxLength >= 0 *)
+    cbn [complete] in C. apply andb_true_iff in C as [C1 C2]. apply andb_true_iff in C1 as [C0 C1]. apply Z.leb_le in C0.
     destruct w; try (cbn in R; discriminate).
     + kill_int_tokens R W.
     + destruct vocab; cbn in R; discriminate.
     + destruct ot; try (cbn in R; discriminate).
-      cbn [recvw] in R. change (slot_open (Some (CList c None mn))) with TOk in R.
-      change (slot_opentype (Some (CList c None mn)) OtList) with true in R. cbn [negb child_of] in R.
-      destruct (kids_with recvw (ChList (Some c) None) kids 0) as [l| |] eqn:K; try discriminate.
+      cbn [recvw] in R. change (slot_open (Some (CList c mx mn))) with TOk in R.
+      change (slot_opentype (Some (CList c mx mn)) OtList) with true in R. cbn [negb child_of] in R.
+      destruct (kids_with recvw (ChList (Some c) mx) kids 0) as [l| |] eqn:K; try discriminate.
       inversion R; subst. cbn [build checkObject]. apply andb_true_iff. split.
-      * apply (len_ok_spec None mn). split; [exact I|]. pose proof (zlen_nonneg l). lia.
-      * eapply (kids_sound (ChList (Some c) None) c); [reflexivity|intros; eapply IHc; eassumption| |exact K]. exact W.
-    + cbn [recvw] in R. change (slot_open (Some (CList c None mn))) with TOk in R. change reference_rechecks_object with true in R.
-      cbn [negb orb] in R. destruct (checkObject (CList c None mn) o) eqn:E; [inversion R; subst; exact E|discriminate].
-  - (* Set c None None *)
-    destruct mx; [discriminate C|]. destruct mut; [discriminate C|]. cbn [complete] in C.
+      * unfold len_ok. change list_max_cmp with SGt. change list_min_cmp with SLt. cbn [scmp_eval].
+        rewrite (delivered_within (ChList (Some c) mx) mx l kids C1); [|intros m i -> Hi; cbn [child_slot]; change list_full_cmp with SGe;
+          rewrite (over_full (Some m) i Hi); reflexivity|exact K].
+        cbn [negb andb]. pose proof (zlen_nonneg l). destruct (Z.ltb_spec (zlen l) mn); [lia|reflexivity].
+      * eapply (kids_sound (ChList (Some c) mx) c); [|intros; eapply IHc; eassumption| |exact K]; [|exact W].
+        intros i oc E. cbn [child_slot] in E. destruct (over_max list_full_cmp mx (Z.of_nat i)); [discriminate|inversion E; reflexivity].
+    + cbn [recvw] in R. change (slot_open (Some (CList c mx mn))) with TOk in R. change reference_rechecks_object with true in R.
+      cbn [negb orb] in R. destruct (checkObject (CList c mx mn) o) eqn:E; [inversion R; subst; exact E|discriminate].
+  - (* Dict k v mk, any maxKeys >= 0 *)
+    cbn [complete] in C. apply andb_true_iff in C as [C1 C3]. apply andb_true_iff in C1 as [C1 C2].
     destruct w; try (cbn in R; discriminate).
     + kill_int_tokens R W.
     + destruct vocab; cbn in R; discriminate.
     + destruct ot; try (cbn in R; discriminate).
-      * cbn [recvw] in R. change (slot_open (Some (CSet c None None))) with TOk in R.
-        change (slot_opentype (Some (CSet c None None)) OtSet) with true in R. cbn [negb child_of] in R.
-        destruct (kids_with recvw (ChSet (Some c) None) kids 0) as [l| |] eqn:K; try discriminate.
-        inversion R; subst. cbn [build checkObject mut_ok over_max negb andb].
-        eapply (kids_sound (ChSet (Some c) None) c); [reflexivity|intros; eapply IHc; eassumption| |exact K]. exact W.
-      * cbn [recvw] in R. change (slot_open (Some (CSet c None None))) with TOk in R.
-        change (slot_opentype (Some (CSet c None None)) OtFset) with true in R. cbn [negb child_of] in R.
-        destruct (kids_with recvw (ChFset (Some c) None) kids 0) as [l| |] eqn:K; try discriminate.
-        inversion R; subst. cbn [build checkObject mut_ok over_max negb andb].
-        eapply (kids_sound (ChFset (Some c) None) c); [reflexivity|intros; eapply IHc; eassumption| |exact K]. exact W.
-    + cbn [recvw] in R. change (slot_open (Some (CSet c None None))) with TOk in R. change reference_rechecks_object with true in R.
-      cbn [negb orb] in R. destruct (checkObject (CSet c None None) o) eqn:E; [inversion R; subst; exact E|discriminate].
+      cbn [recvw] in R. change (slot_open (Some (CDict c1 c2 mk))) with TOk in R.
+      change (slot_opentype (Some (CDict c1 c2 mk)) OtDict) with true in R. cbn [negb child_of] in R.
+      destruct (kids_with recvw (ChDict (Some (c1, c2)) mk) kids 0) as [l| |] eqn:K; try discriminate.
+      inversion R; subst. cbn [build checkObject].
+      pose proof (kids_alt c1 c2 mk (fun w r Ww Rr => IHc1 C2 w r Ww Rr) (fun w r Ww Rr => IHc2 C3 w r Ww Rr) kids 0%nat l W K) as A.
+      change (Nat.even 0) with true in A. apply alt_evens_odds in A as [A1 A2]. rewrite A1, A2, !andb_true_r.
+      apply negb_true_iff. change dict_max_cmp with SGt.
+      destruct mk as [m|]; [|reflexivity]. cbn. destruct (Z.gtb_spec (zlen (evens l)) m) as [G|G]; [|reflexivity].
+      pose proof (bound_nonneg_spec _ _ C1 eq_refl) as P. pose proof (evens_len l) as EL.
+      destruct (kids_bound (ChDict (Some (c1, c2)) (Some m)) (2 * m)) with (kids := kids) (i := 0%nat) (l := l) as [->|B]; auto.
+      * intros i Hi. cbn [child_slot]. change dict_full_cmp with SGe.
+        assert (D : m <= Z.of_nat (Nat.div2 i)). { rewrite Nat.div2_div, Nat2Z.inj_div. apply Z.div_le_lower_bound; lia. }
+        rewrite (over_full (Some m) (Nat.div2 i) D). reflexivity.
+      * cbn [evens] in G. change (zlen (@nil obj)) with 0 in G. lia.
+      * lia.
+    + cbn [recvw] in R. change (slot_open (Some (CDict c1 c2 mk))) with TOk in R. change reference_rechecks_object with true in R.
+      cbn [negb orb] in R. destruct (checkObject (CDict c1 c2 mk) o) eqn:E; [inversion R; subst; exact E|discriminate].
+  - (* Set c mx None, any maxLength >= 0 *)
+    destruct mut; [discriminate C|]. cbn [complete] in C. apply andb_true_iff in C as [C1 C2].
+    destruct w; try (cbn in R; discriminate).
+    + kill_int_tokens R W.
+    + destruct vocab; cbn in R; discriminate.
+    + destruct ot; try (cbn in R; discriminate).
+      * cbn [recvw] in R. change (slot_open (Some (CSet c mx None))) with TOk in R.
+        change (slot_opentype (Some (CSet c mx None)) OtSet) with true in R. cbn [negb child_of] in R.
+        destruct (kids_with recvw (ChSet (Some c) mx) kids 0) as [l| |] eqn:K; try discriminate.
+        inversion R; subst. cbn [build checkObject mut_ok andb]. change set_max_cmp with SGt.
+        rewrite (delivered_within (ChSet (Some c) mx) mx l kids C1); [|intros m i -> Hi; cbn [child_slot]; change set_full_cmp with SGe;
+          rewrite (over_full (Some m) i Hi); reflexivity|exact K].
+        cbn [negb andb]. eapply (kids_sound (ChSet (Some c) mx) c); [|intros; eapply IHc; eassumption| |exact K]; [|exact W].
+        intros i oc E. cbn [child_slot] in E. destruct (over_max set_full_cmp mx (Z.of_nat i)); [discriminate|inversion E; reflexivity].
+      * cbn [recvw] in R. change (slot_open (Some (CSet c mx None))) with TOk in R.
+        change (slot_opentype (Some (CSet c mx None)) OtFset) with true in R. cbn [negb child_of] in R.
+        destruct (kids_with recvw (ChFset (Some c) mx) kids 0) as [l| |] eqn:K; try discriminate.
+        inversion R; subst. cbn [build checkObject mut_ok andb]. change set_max_cmp with SGt.
+        rewrite (delivered_within (ChFset (Some c) mx) mx l kids C1); [|intros m i -> Hi; cbn [child_slot]; change fset_full_cmp with SGe;
+          rewrite (over_full (Some m) i Hi); reflexivity|exact K].
+        cbn [negb andb]. eapply (kids_sound (ChFset (Some c) mx) c); [|intros; eapply IHc; eassumption| |exact K]; [|exact W].
+        intros i oc E. cbn [child_slot] in E. destruct (over_max fset_full_cmp mx (Z.of_nat i)); [discriminate|inversion E; reflexivity].
+    + cbn [recvw] in R. change (slot_open (Some (CSet c mx None))) with TOk in R. change reference_rechecks_object with true in R.
+      cbn [negb orb] in R. destruct (checkObject (CSet c mx None) o) eqn:E; [inversion R; subst; exact E|discriminate].
+  - (* Optional below the argument level *)
+    reflexivity.
+  - (* RemoteInterfaceConstraint(None): any RemoteReference *)
+    destruct i; [discriminate C|].
+    destruct w; try (cbn in R; discriminate).
+    + kill_int_tokens R W.
+    + destruct vocab; cbn in R; discriminate.
+    + destruct ot; try (cbn in R; discriminate); cbn in R; apply recv_myref_remote in R as [n ->]; reflexivity.
+    + cbn [recvw] in R. change (slot_open (Some (CRemote None))) with TOk in R. change reference_rechecks_object with true in R.
+      cbn [negb orb] in R. destruct (checkObject (CRemote None) o) eqn:E; [inversion R; subst; exact E|discriminate].
 Qed.
 
 Example C02_result_partial_nonvacuous :
@@ -1375,6 +1510,33 @@ Example C02_result_partial_nonvacuous :
   let w := slice [] (OList [OFset [OInt 1; OInt (2 ^ 70)]; OSet []]) in
   complete c = true /\ wwf w = true /\ recv_answer (Some c) w = Callback (OList [OFset [OInt 1; OInt (2 ^ 70)]; OSet []]).
 Proof. vm_compute. auto. Qed.
+
+(* why `complete` stops where it does: further witnesses of the unchecked result side *)
+Theorem result_refuted_more :
+  (* ByteString(maxLength=3): a VOCAB token's header is an index, its word is not measured *)
+  recv_answer (Some (CBytes (Some 3) 0)) (WStr true 21 [99; 108; 97; 115; 115]) = Callback (OBytes [99; 108; 97; 115; 115]) /\
+  checkObject (CBytes (Some 3) 0) (OBytes [99; 108; 97; 115; 115]) = false /\
+  (* IntegerConstraint(maxBytes=4): an INT token with a 40-bit header *)
+  recv_answer (Some (CInt (Some 4))) (WInt 129 (2 ^ 40) (2 ^ 40)) = Callback (OInt (2 ^ 40)) /\ checkObject (CInt (Some 4)) (OInt (2 ^ 40)) = false /\
+  (* ChoiceOf(ListOf(Any)): an OPEN none passes the OPEN taster of the list alternative *)
+  recv_answer (Some (CChoice [CList CAny None 0])) (WOpen OtNone []) = Callback ONone /\ checkObject (CChoice [CList CAny None 0]) ONone = false /\
+  (* SetOf(int, mutable=True): an immutable-set arrives *)
+  recv_answer (Some (CSet (CInt None) None (Some true))) (WOpen OtFset []) = Callback (OFset []) /\
+  checkObject (CSet (CInt None) None (Some true)) (OFset []) = false /\
+  (* ListOf(int, maxLength=-1) / minLength=1: the empty list *)
+  recv_answer (Some (CList (CInt None) (Some (-1)) 0)) (WOpen OtList []) = Callback (OList []) /\
+  recv_answer (Some (CList (CInt None) None 1)) (WOpen OtList []) = Callback (OList []).
+Proof. vm_compute. repeat split; reflexivity. Qed.
+
+(* bounded containers: the bound is enforced exactly by the "full" tests (a third member / key is refused) *)
+Example C02_result_partial_bounded :
+  let c := CDict (CBytes None 0) (CList (CSet (CInt None) (Some 1) None) (Some 2) 0) (Some 1) in
+  let o := ODict [OBytes [107]] [OList [OSet [OInt 5]; OFset []]] in
+  complete c = true /\ wwf (slice [] o) = true /\ recv_answer (Some c) (slice [] o) = Callback o /\ checkObject c o = true /\
+  recv_answer (Some c) (slice [] (ODict [OBytes [107]] [OList [OSet []; OSet []; OSet []]])) = Errback /\
+  recv_answer (Some c) (slice [] (ODict [OBytes [107]] [OList [OSet [OInt 5; OInt 6]]])) = Errback /\
+  recv_answer (Some c) (slice [] (ODict [OBytes [107]; OBytes [108]] [OList []; OList []])) = Errback.
+Proof. vm_compute. repeat split; reflexivity. Qed.
 
 (* a back-reference -- to an earlier complete object, or (o = OPending k) to a tuple that is still open -- is delivered
    only if the constraint of the slot accepts the referenced object; a placeholder passes only "accept everything" slots *)
@@ -1551,3 +1713,242 @@ Proof.
   split; [|vm_compute; repeat split; reflexivity].
   split; [reflexivity|]. split; [reflexivity|]. intros sp [<-|[<-|[]]]; reflexivity.
 Qed.
+
+(* ------------------------------------------------------------------ C02: RemoteCopy state under a stateSchema *)
+Lemma recvw_complete c w v : complete c = true -> wwf w = true -> recvw (Some c) w = RDeliver v -> checkObject c v = true.
+Proof.
+  intros C W R. apply (C02_result_partial_main c w v C W). unfold recv_answer. rewrite R.
+  change answer_checks_object with false. reflexivity.
+Qed.
+
+(* every (name, value) the RemoteCopyUnslicer collects was received under the constraint getAttrConstraint gave for
+   that name (accept = True), whatever the children are *)
+Lemma rc_run_invariant s (P : Z * obj -> Prop) :
+  (forall n oc w x, getAttrConstraint s n = GC true oc -> wwf w = true -> recvw oc w = RDeliver x -> P (n, x)) ->
+  forall items d d', forallb wwf items = true -> rc_run (Some s) d items = ADeliver d' -> Forall P d -> Forall P d'.
+Proof.
+  intros HP.
+  assert (G : forall k items d d', (List.length items <= k)%nat -> forallb wwf items = true ->
+              rc_run (Some s) d items = ADeliver d' -> Forall P d -> Forall P d').
+  { induction k as [|k IH]; intros items d d' L W E F.
+    - destruct items; [|cbn in L; lia]. cbn in E. unfold rc_close in E. change rc_close_checks_state with false in E.
+      cbn in E. inversion E; subst. exact F.
+    - destruct items as [|nametok rest].
+      + cbn in E. unfold rc_close in E. change rc_close_checks_state with false in E. cbn in E. inversion E; subst. exact F.
+      + cbn [rc_run] in E. destruct nametok; try discriminate E.
+        destruct (utf8_valid bs); cbn [negb] in E; [|destruct rc_nontext_name_violation; discriminate E].
+        destruct (memZ (name_code bs) (map fst d)); [discriminate E|].
+        destruct (getAttrConstraint s (name_code bs)) as [| |acc oc] eqn:GA; try discriminate E.
+        change rc_asserts_accept with true in E. destruct acc; cbn [negb andb] in E; [|discriminate E].
+        destruct rest as [|w rest'].
+        * unfold rc_close in E. change rc_close_checks_state with false in E. cbn in E. inversion E; subst. exact F.
+        * cbn [forallb] in W. apply andb_true_iff in W as [_ W]. apply andb_true_iff in W as [W1 W2].
+          destruct (recvw oc w) as [x| |] eqn:R; try discriminate E.
+          apply (IH rest' (d ++ [(name_code bs, x)]) d'); [cbn [List.length] in L; lia|exact W2|exact E|].
+          apply Forall_app. split; [exact F|]. constructor; [|constructor]. eapply HP; eassumption. }
+  intros items d d'. apply (G (List.length items)). lia.
+Qed.
+
+(* the RemoteCopy analogue of the result side: a collected attribute value satisfies the constraint declared for its name
+   when that constraint's token-level enforcement is complete -- nothing more, because receiveClose does not apply the
+   stateSchema to the finished state *)
+Theorem rc_values_partial s items d' : forallb wwf items = true -> rc_run (Some s) [] items = ADeliver d' ->
+  forall n v a, In (n, v) d' -> lookup n (as_keys s) = Some a -> complete (a_ctr a) = true -> checkObject (a_ctr a) v = true.
+Proof.
+  intros W E.
+  pose proof (rc_run_invariant s (fun nv => forall a, lookup (fst nv) (as_keys s) = Some a -> complete (a_ctr a) = true ->
+                                                       checkObject (a_ctr a) (snd nv) = true)) as I.
+  assert (F : Forall (fun nv => forall a, lookup (fst nv) (as_keys s) = Some a -> complete (a_ctr a) = true ->
+                                          checkObject (a_ctr a) (snd nv) = true) d').
+  { apply (I) with (items := items) (d := []); [|exact W|exact E|constructor].
+    intros n oc w x GA Ww R a L C. cbn [fst snd] in *. unfold getAttrConstraint in GA. rewrite L in GA. inversion GA; subst.
+    eapply recvw_complete; eassumption. }
+  intros n v a Hin L C. rewrite Forall_forall in F. apply (F (n, v) Hin a L C).
+Qed.
+
+(* "no undeclared attribute": a collected name is declared, or the schema says acceptUnknown *)
+Theorem rc_names_declared s items d' : forallb wwf items = true -> rc_run (Some s) [] items = ADeliver d' ->
+  forall n v, In (n, v) d' -> lookup n (as_keys s) <> None \/ as_accept s = true.
+Proof.
+  intros W E.
+  assert (F : Forall (fun nv => lookup (fst nv) (as_keys s) <> None \/ as_accept s = true) d').
+  { apply (rc_run_invariant s _) with (items := items) (d := []); [|exact W|exact E|constructor].
+    intros n oc w x GA _ _. cbn [fst]. unfold getAttrConstraint in GA. destruct (lookup n (as_keys s)); [left; discriminate|].
+    destruct (as_ignore s); [discriminate GA|]. destruct (as_accept s); [right; reflexivity|discriminate GA]. }
+  intros n v Hin. rewrite Forall_forall in F. apply (F (n, v) Hin).
+Qed.
+
+Definition asP (ign acc : bool) : attrschema :=
+  {| as_keys := [{| a_name := nA; a_ctr := CInt (Some 1024); a_opt := false |};
+                 {| a_name := nB; a_ctr := CTuple [CInt None; CInt None]; a_opt := false |};
+                 {| a_name := nC; a_ctr := CList (CInt None) (Some 2) 0; a_opt := true |}];
+     as_ignore := ign; as_accept := acc |}.
+
+(* the full statement "the state handed to setCopyableState satisfies the declared stateSchema" is FALSE on the current
+   tree (finding oracle/remotecopy-state-unchecked): required attributes may be missing, a 1-tuple arrives for
+   TupleOf(int, int); and the "one call fails with a Violation" part is false for ignoreUnknown (assert accept: connection
+   lost).  An attribute name that is not UTF-8 is a Violation since commit bc46263 (rc_nontext_name_violation, read from
+   copyable.py; before it the UnicodeDecodeError escaped and the connection was lost) *)
+Theorem rc_state_refuted :
+  rc_run (Some (asP false false)) [] [] = ADeliver [] /\ attr_state_ok (asP false false) [] = false /\
+  rc_run (Some (asP false false)) [] [kname 97; i5; kname 98; WOpen OtTuple [i5]] = ADeliver [(nA, OInt 5); (nB, OTuple [OInt 5])] /\
+  attr_state_ok (asP false false) [(nA, OInt 5); (nB, OTuple [OInt 5])] = false /\
+  rc_run (Some (asP true false)) [] [kname 97; i5; kname 122; i5] = AAbort /\
+  rc_run (Some (asP false false)) [] [WStr false 2 [168; 97]; i5] = AViol /\
+  rc_run (Some (asP false false)) [] [kname 97; i5; kname 122; i5] = AViol /\
+  rc_run (Some (asP false true)) [] [kname 97; i5; kname 122; WOpen OtList [i5]] = ADeliver [(nA, OInt 5); (nZ, OList [OInt 5])] /\
+  rc_run (Some (asP false false)) [] [kname 99; WOpen OtList [i5; i5; i5]] = AViol.
+Proof. vm_compute. repeat split; reflexivity. Qed.
+
+(* ------------------------------------------------------------------ C02 / C12: the whole `call` sequence *)
+Lemma au_run_collect ms : forall items st,
+  au_run ms st items = match au_collect ms st items with ArOk a kw => doCall ms a kw | ArViol => CViol | ArAbort => CAbort end.
+Proof.
+  induction items as [|w items IH]; intros st; cbn [au_run au_collect].
+  - destruct (au_close st) as [[a kw]|]; reflexivity.
+  - destruct (au_child ms st w); [apply IH|reflexivity|reflexivity].
+Qed.
+
+(* the schema a call is judged by is the one the Broker's tables designate for the addressed object and method *)
+Definition designated (env : benv) (clid : Z) (meth : option Z) (ms : mschema) : Prop :=
+  exists t, assocZ clid (be_objs env) = Some t /\
+    if clid <? 0 then t_methodSchema t = Some ms /\ meth = None
+    else exists tbl n, t_iface t = Some tbl /\ meth = Some n /\ assocZ n tbl = Some ms.
+
+Definition cu_inv (env : benv) (st : custate) : Prop :=
+  (forall t, cu_target st = Some t -> assocZ (cu_objid st) (be_objs env) = Some t) /\
+  (forall tbl, cu_iface st = Some tbl -> exists t, assocZ (cu_objid st) (be_objs env) = Some t /\ (cu_objid st <? 0) = false /\ t_iface t = Some tbl) /\
+  (forall ms, cu_ms st = Some ms -> designated env (cu_objid st) (cu_meth st) ms).
+
+Lemma cu_child_stop env st k r : cu_child env st k = CuStop r -> forall c m ms a kw, r <> QInvoke c m ms a kw.
+Proof.
+  unfold cu_child. intros E c m ms a kw ->.
+  repeat match type of E with
+         | context [match ?x with _ => _ end] => destruct x; try discriminate E
+         | context [if ?x then _ else _] => destruct x; try discriminate E
+         end.
+Qed.
+
+Lemma cu_child_inv env st k st' : cu_inv env st -> cu_child env st k = CuGo st' -> cu_inv env st'.
+Proof.
+  intros (I1 & I2 & I3). unfold cu_child. destruct k as [w|items].
+  - destruct (negb (cu_tok_ok (cu_stage st) (typebyte_of w))); [discriminate|].
+    destruct w; try discriminate.
+    + destruct (cu_stage st =? 0).
+      * destruct (negb (v =? 0) && memZ v (be_active env)); [discriminate|]. intros E; inversion E; subst. clear E.
+        split; [|split]; cbn; intros; discriminate.
+      * destruct (cu_stage st =? 1); [|discriminate]. destruct (assocZ v (be_objs env)) as [t|] eqn:A; [|discriminate].
+        intros E; inversion E; subst. clear E. split; [|split]; cbn [cu_target cu_objid cu_iface cu_ms cu_meth].
+        -- intros t0 E0. inversion E0; subst. exact A.
+        -- intros tbl E0. destruct (v <? 0) eqn:N; [discriminate|]. exists t. auto.
+        -- intros; discriminate.
+    + destruct (cu_stage st =? 2); [|discriminate]. destruct (cu_objid st <? 0) eqn:N.
+      * destruct (be_require env && _); [discriminate|]. intros E; inversion E; subst. clear E.
+        split; [|split]; cbn [cu_target cu_objid cu_iface cu_ms cu_meth]; [exact I1|intros tbl0 F0; destruct (I2 tbl0 F0) as (t0 & B1 & B2 & B3); try discriminate B2; exists t0; rewrite N; auto|].
+        intros ms E0. destruct (cu_target st) as [t|] eqn:T; [|discriminate]. exists t. split; [apply I1; reflexivity|]. rewrite N. auto.
+      * destruct (negb (utf8_valid bs)); [discriminate|]. destruct (cu_iface st) as [tbl|] eqn:F.
+        -- destruct (assocZ (name_code bs) tbl) as [ms0|] eqn:A; [|discriminate]. intros E; inversion E; subst. clear E.
+           split; [|split]; cbn [cu_target cu_objid cu_iface cu_ms cu_meth]; [exact I1|intros tbl0 F0; destruct (I2 tbl0 F0) as (t0 & B1 & B2 & B3); try discriminate B2; exists t0; rewrite N; auto|].
+           intros ms E0. inversion E0; subst. destruct (I2 tbl eq_refl) as (t & A1 & A2 & A3). exists t. split; [exact A1|].
+           rewrite N. exists tbl, (name_code bs). auto.
+        -- intros E; inversion E; subst. clear E. split; [|split]; cbn [cu_target cu_objid cu_iface cu_ms cu_meth]; [exact I1|intros tbl0 F0; destruct (I2 tbl0 F0) as (t0 & B1 & B2 & B3); try discriminate B2; exists t0; rewrite N; auto|].
+           intros; discriminate.
+  - destruct (negb (cu_tok_ok (cu_stage st) tok_OPEN)); [discriminate|]. destruct (cu_ms st) as [ms|] eqn:M; [|discriminate].
+    destruct (au_collect ms au_init items); try discriminate. intros E; inversion E; subst. clear E.
+    split; [|split]; cbn [cu_target cu_objid cu_iface cu_ms cu_meth]; [exact I1|exact I2|]. intros ms0 E0. inversion E0; subst. apply I3. reflexivity.
+Qed.
+
+Lemma cu_run_checked env : forall kids st clid meth ms a kw, cu_inv env st ->
+  cu_run env st kids = QInvoke clid meth ms a kw -> designated env clid meth ms /\ checkAllArgs ms a kw = Ok tt.
+Proof.
+  induction kids as [|k kids IH]; intros st clid meth ms a kw I E; cbn [cu_run] in E.
+  - unfold cu_close in E. destruct (negb (cu_close_ok (cu_stage st))); [discriminate|].
+    destruct (cu_ms st) as [ms0|] eqn:M; [|discriminate]. destruct (cu_args st) as [[a0 kw0]|]; [|discriminate].
+    destruct (doCall ms0 a0 kw0) as [a1 kw1| | |] eqn:D; cbn [lift_cv] in E; try discriminate. inversion E; subst.
+    apply doCall_checked in D as (-> & -> & D). split; [|exact D]. destruct I as (_ & _ & I3). apply I3. exact M.
+  - destruct (cu_child env st k) as [st'|r] eqn:C.
+    + eapply IH; [eapply cu_child_inv; eassumption|exact E].
+    + subst r. exfalso. eapply cu_child_stop; [exact C|reflexivity].
+Qed.
+
+(* for ARBITRARY children of OPEN call: if the method body runs, the arguments passed checkAllArgs of the schema that
+   the Broker's tables designate for the addressed object and method name *)
+Theorem call_stream_checked env kids clid meth ms a kw :
+  recv_call_stream env kids = QInvoke clid meth ms a kw -> designated env clid meth ms /\ checkAllArgs ms a kw = Ok tt.
+Proof.
+  apply cu_run_checked. split; [|split]; cbn; intros; discriminate.
+Qed.
+
+(* a call sequence framed like an honest one -- request id, object id >= 0 of a Referenceable whose RemoteInterface
+   defines the named method, an `arguments` sequence with ARBITRARY children -- is the ArgumentUnslicer machine run under
+   that method's schema *)
+Definition call_kids (r c : Z) (mname : list Z) (items : list wobj) : list citem :=
+  [CTok (WInt tok_INT r r); CTok (WInt tok_INT c c); CTok (WStr false (zlen mname) mname); CArgs items].
+
+Lemma call_stream_framed env r c mname items t tbl ms :
+  (negb (r =? 0) && memZ r (be_active env)) = false -> 0 <= c -> utf8_valid mname = true ->
+  assocZ c (be_objs env) = Some t -> t_iface t = Some tbl -> assocZ (name_code mname) tbl = Some ms ->
+  recv_call_stream env (call_kids r c mname items) = lift_cv c (Some (name_code mname)) ms (recv_arguments ms items).
+Proof.
+  intros A C U L1 L2 L3. unfold recv_call_stream, call_kids, recv_arguments. rewrite au_run_collect.
+  assert (N : (c <? 0) = false) by (apply Z.ltb_ge; exact C).
+  cbn [cu_run]. unfold cu_child at 1. cbn [cu_stage cu_init typebyte_of]. change (cu_tok_ok 0 tok_INT) with true. cbn [negb Z.eqb Pos.eqb].
+  rewrite A. cbn [cu_run]. unfold cu_child at 1. cbn [cu_stage typebyte_of]. change (cu_tok_ok 1 tok_INT) with true. cbn [negb Z.eqb Pos.eqb].
+  rewrite L1, N, L2. cbn [cu_run]. unfold cu_child at 1. cbn [cu_stage cu_objid cu_iface typebyte_of]. change (cu_tok_ok 2 tok_STRING) with true.
+  cbn [negb Z.eqb Pos.eqb]. rewrite N, U. cbn [negb]. rewrite L3. cbn [cu_run]. unfold cu_child at 1. cbn [cu_stage cu_ms].
+  change (cu_tok_ok 3 tok_OPEN) with true. cbn [negb].
+  destruct (au_collect ms au_init items) as [a kw| |]; reflexivity.
+Qed.
+
+(* C02_one_call_violation for complete call sequences *)
+Theorem call_one_violation env r c mname pos kwsb t tbl ms :
+  (negb (r =? 0) && memZ r (be_active env)) = false -> 0 <= c -> utf8_valid mname = true ->
+  assocZ c (be_objs env) = Some t -> t_iface t = Some tbl -> assocZ (name_code mname) tbl = Some ms ->
+  leaf_schema ms -> names_text kwsb = true ->
+  recv_call_stream env (call_kids r c mname (enc_args pos kwsb)) = QViol \/
+  exists a kw, recv_call_stream env (call_kids r c mname (enc_args pos kwsb)) = QInvoke c (Some (name_code mname)) ms a kw /\
+               checkAllArgs ms a kw = Ok tt.
+Proof.
+  intros A C U L1 L2 L3 LS NT. rewrite (call_stream_framed env r c mname _ t tbl ms A C U L1 L2 L3).
+  destruct (one_call_violation_stream ms pos kwsb LS NT) as [E|(a & kw & E & K)]; rewrite E; cbn [lift_cv]; [left; reflexivity|].
+  right. exists a, kw. auto.
+Qed.
+
+(* C12_call_delivered for complete call sequences: what callRemote's check lets through runs the addressed method *)
+Theorem call_delivered voc env r c mname t tbl ms a kw :
+  (negb (r =? 0) && memZ r (be_active env)) = false -> 0 <= c -> utf8_valid mname = true ->
+  assocZ c (be_objs env) = Some t -> t_iface t = Some tbl -> assocZ (name_code mname) tbl = Some ms ->
+  ms_wf ms -> args_guarded ms a kw ->
+  forall p k kb, send_call voc ms a kw = Some (p, k) -> code_kws kb = k -> names_text kb = true ->
+  recv_call_stream env (call_kids r c mname (enc_args p kb)) = QInvoke c (Some (name_code mname)) ms a kw.
+Proof.
+  intros A C U L1 L2 L3 W G p k kb S K NT. rewrite (call_stream_framed env r c mname _ t tbl ms A C U L1 L2 L3).
+  rewrite (c12_call_stream voc ms a kw W G p k kb S K NT). reflexivity.
+Qed.
+
+Definition envX : benv :=
+  {| be_objs := [(0, {| t_iface := None; t_methodSchema := None |});
+                 (3, {| t_iface := Some [(name_code [109], ms3 false false); (name_code [110], msL)]; t_methodSchema := None |});
+                 (4, {| t_iface := None; t_methodSchema := None |});
+                 (-5, {| t_iface := None; t_methodSchema := Some msL |}); (-6, {| t_iface := None; t_methodSchema := None |})];
+     be_require := true; be_active := [7] |}.
+
+(* hostile `call` sequences: every line is a stream no honest sender emits (or addresses something that is not there) *)
+Example hostile_calls :
+  let args := CArgs [WInt 129 1 1; i5] in
+  let rq := CTok (WInt 129 1 1) in let ob := CTok (WInt 129 3 3) in let nm_ := CTok (WStr false 1 [109]) in
+  recv_call_stream envX [rq; ob; nm_; args] = QInvoke 3 (Some (name_code [109])) (ms3 false false) [OInt 5] [] /\
+  recv_call_stream envX [rq; CTok (WInt 129 9 9); nm_; args] = QViol /\                       (* unknown object id *)
+  recv_call_stream envX [rq; ob; CTok (WStr false 1 [120]); args] = QViol /\                  (* method not in the interface *)
+  recv_call_stream envX [rq; ob; CTok (WStr false 2 [168; 97]); args] = QViol /\              (* method name not UTF-8 *)
+  recv_call_stream envX [rq; ob; args] = QAbort /\                                            (* arguments where the name is expected *)
+  recv_call_stream envX [rq; ob; nm_] = QAbort /\                                             (* ends before the arguments *)
+  recv_call_stream envX [rq; ob; nm_; args; args] = QAbort /\                                 (* a second arguments sequence *)
+  recv_call_stream envX [rq; ob; nm_; CTok (WOpen OtList [i5])] = QAbort /\                   (* a list instead of arguments *)
+  recv_call_stream envX [CTok (WInt 131 1 (-1)); ob; nm_; args] = QAbort /\                   (* request id is a NEG token *)
+  recv_call_stream envX [CTok (WInt 129 7 7); ob; nm_; args] = QAbort /\                      (* request id still being answered *)
+  recv_call_stream envX [rq; CTok (WInt 129 4 4); nm_; args] = QNoSchema /\                   (* object without RemoteInterface *)
+  recv_call_stream envX [rq; CTok (WInt 131 5 (-5)); nm_; CArgs [WInt 129 1 1; i5]] = QInvoke (-5) None msL [OInt 5] [] /\  (* bound method: name ignored *)
+  recv_call_stream envX [rq; CTok (WInt 131 6 (-6)); nm_; args] = QViol /\                    (* requireSchema, bound method without schema *)
+  recv_call_stream envX [rq; ob; CTok (WStr false 1 [110]); CArgs [WInt 129 1 1; WOpen OtList []]] = QViol.   (* the OTHER method's schema *)
+Proof. vm_compute. repeat split; reflexivity. Qed.
